@@ -35,15 +35,29 @@ type blobAction struct {
 	B       []byte
 	Keys    state.Keys
 	Compute uint64
+	// PerID: the action also declares a key derived from its action id (a per-invocation record),
+	// so the declared key set differs between actions of one tx and is unknown before signing
+	PerID bool
 }
 
 var _ chain.Action = (*blobAction)(nil)
 
-func (a *blobAction) GetTypeID() uint8                           { return a.B[0] }
-func (*blobAction) ValidRange(chain.Rules) (int64, int64)        { return -1, -1 }
-func (a *blobAction) ComputeUnits(chain.Rules) uint64            { return a.Compute }
-func (a *blobAction) StateKeys(codec.Address, ids.ID) state.Keys { return a.Keys }
-func (a *blobAction) Bytes() []byte                              { return a.B }
+func (a *blobAction) GetTypeID() uint8                    { return a.B[0] }
+func (*blobAction) ValidRange(chain.Rules) (int64, int64) { return -1, -1 }
+func (a *blobAction) ComputeUnits(chain.Rules) uint64     { return a.Compute }
+func (a *blobAction) StateKeys(_ codec.Address, id ids.ID) state.Keys {
+	if !a.PerID {
+		return a.Keys
+	}
+	ks := state.Keys{}
+	for k, v := range a.Keys {
+		ks[k] = v
+	}
+	k := append([]byte{0x77}, id[:12]...)
+	ks[string(append(k, 0, 2))] = state.All // 2 chunks
+	return ks
+}
+func (a *blobAction) Bytes() []byte { return a.B }
 func (*blobAction) Execute(context.Context, chain.Rules, state.Mutable, int64, codec.Address, ids.ID) ([]byte, error) {
 	return nil, nil
 }
@@ -63,6 +77,7 @@ type c14Act struct {
 	Keys    []fixture.KeyDecl `json:",omitempty"`
 	To      int               `json:",omitempty"`
 	Nonce   uint64            `json:",omitempty"`
+	PerID   bool              `json:",omitempty"`
 }
 
 type c14Case struct {
@@ -111,7 +126,7 @@ func (a c14Act) action() chain.Action {
 		if n < 1 {
 			n = 1
 		}
-		return &blobAction{B: filled(n, a.Fill), Keys: ks, Compute: a.Compute}
+		return &blobAction{B: filled(n, a.Fill), Keys: ks, Compute: a.Compute, PerID: a.PerID}
 	case c14Prog:
 		ops := []fixture.Op{}
 		if a.Size > 0 && len(a.Keys) > 0 {
@@ -175,6 +190,9 @@ func c14GenAct(rt *rapid.T, i int, big *int, huge bool) c14Act {
 		Compute: rapid.SampledFrom([]uint64{0, 1, 1, 5, 1000, 1 << 20}).Draw(rt, "compute"),
 		To:      rapid.IntRange(0, 3).Draw(rt, "to"),
 		Nonce:   uint64(i),
+	}
+	if a.Kind == c14Blob && rapid.IntRange(0, 2).Draw(rt, "perid") == 0 {
+		a.PerID = true
 	}
 	if huge && rapid.IntRange(0, 3).Draw(rt, "hugecompute") == 3 {
 		a.Compute = rapid.SampledFrom([]uint64{1 << 56, 1 << 62, 1<<64 - 1}).Draw(rt, "computehuge")
